@@ -181,7 +181,7 @@ func checkC06(c *Ctx) {
 			}
 			n++
 			x := pathOf(st.Addr.(*ssa.FieldAddr).X)
-			d := dparam.Name()
+			d := pname(dparam)
 			if x == d {
 				r.OK("C06.2", "register: the instance marked valid is the delivery that passed admission", st.Pos(), "Valid stored on the parameter itself")
 				continue
